@@ -106,6 +106,10 @@ bool BufferedFd::enable()
     if (sp_read_event_ != nullptr)
         sp_read_event_->enable();
 
+    //! 在 enable() 之前 send() 的数据（或 disable() 时尚未发完的数据）还留在发送缓冲中，需要打开可写事件继续发送
+    if (sp_write_event_ != nullptr && send_buff_.readableSize() > 0)
+        sp_write_event_->enable();
+
     state_ = State::kRunning;
 
     return true;
